@@ -9,6 +9,7 @@ from concurrent.futures import ThreadPoolExecutor
 ROOT = os.path.dirname(os.path.dirname(os.path.abspath(__file__)))
 ap = argparse.ArgumentParser(); ap.add_argument("--slots", type=int, default=4)
 ap.add_argument("--head", action="store_true", help="run the committed /verif (mutant_run --head)")
+ap.add_argument("--kind", default="", help="seed|refactor: only that kind")
 ap.add_argument("--only", default="", help="comma-separated property ids: only seeds/refactors concerning them")
 a = ap.parse_args()
 jobs = []
@@ -21,6 +22,8 @@ for d in sorted(os.listdir(os.path.join(ROOT, "refactors"))):
     if os.path.exists(p):
         ids = subprocess.run([sys.executable, os.path.join(ROOT, "tools", "anchored_ids.py"), p], text=True, stdout=subprocess.PIPE).stdout.strip()
         jobs.append(("refactor", d, p, ids, 0))
+if a.kind:
+    jobs = [j for j in jobs if j[0] == a.kind]
 if a.only:
     want_ids = set(a.only.split(","))
     jobs = [(k, n, p, ",".join(i for i in ids.split(",") if i in want_ids), w) for k, n, p, ids, w in jobs]
@@ -42,7 +45,7 @@ with ThreadPoolExecutor(a.slots) as ex:
     res = list(ex.map(lambda t: run(*t), enumerate(chunks)))
 lines = sorted(l for r in res for l in r)
 base = subprocess.run("git -C /repo log --format=%h -1", shell=True, text=True, stdout=subprocess.PIPE).stdout.strip()
-open(os.path.join(ROOT, "notes", "regression.txt"), "w").write(
+open(os.path.join(ROOT, "notes", "regression.txt" if not (a.kind or a.only) else "regression_" + (a.kind or "only") + ".txt"), "w").write(
     f"# seeded changes must be flagged (exit 1), harmless refactorings must not (exit 0); /repo at {base}\n" + "\n".join(lines) + "\n")
 bad = [l for l in lines if l.startswith("FAIL")]
 print(f"{len(lines)} runs, {len(bad)} unexpected")
